@@ -22,6 +22,10 @@ type seed struct {
 }
 
 var seeds = []seed{
+	{"32-bit BSI.ParOr replaces the collected planes when an operand is narrower", "ACC1", "BitSliceIndexing/bsi.go", "\t\t\t// a narrower operand has nothing to contribute to plane i\n\t\t\tif len(x.bA) > i {\n\t\t\t\ta[i] = append(a[i], x.bA[i])\n\t\t\t}\n", "\t\t\tif len(x.bA) > i {\n\t\t\t\ta[i] = append(a[i], x.bA[i])\n\t\t\t} else {\n\t\t\t\ta[i] = []*roaring.Bitmap{roaring.NewBitmap()}\n\t\t\t}\n", "(*BitSliceIndexing.BSI).ParOr|accumulator"},
+	{"64-bit BSI.ParOr ignores the sign plane of a narrower operand", "PC2", "roaring64/bsi64.go", "\t\t\t} else if len(x.bA) > 0 {\n\t\t\t\t// a narrower operand: its sign plane (the last one) extends to every higher plane\n\t\t\t\ta[i] = append(a[i], &x.bA[len(x.bA)-1])\n\t\t\t}\n", "\t\t\t} else if b.runOptimized && len(a[i]) > 0 {\n\t\t\t\ta[i][0].RunOptimize()\n\t\t\t}\n", "ParOr|narrow operand"},
+	{"64-bit BSI.ParOr widens the receiver without sign extension", "PC2", "roaring64/bsi64.go", "\t\tif oldSignPos >= 0 {\n\t\t\tfor i := oldSignPos + 1; i < len(b.bA); i++ {\n\t\t\t\tb.bA[i].Or(&b.bA[oldSignPos])\n\t\t\t}\n\t\t}\n", "\t\t_ = oldSignPos\n", "ParOr|sign-extension"},
+	{"64-bit BSI.ParOr sign-extends below the new top plane only", "PC2", "roaring64/bsi64.go", "\t\t\tfor i := oldSignPos + 1; i < len(b.bA); i++ {\n\t\t\t\tb.bA[i].Or(&b.bA[oldSignPos])", "\t\t\tfor i := oldSignPos + 1; i < len(b.bA)-1; i++ {\n\t\t\t\tb.bA[i].Or(&b.bA[oldSignPos])", "ParOr|sign-extension"},
 	{"64-bit detach forgets the buckets' own containers", "A5", "roaring64/roaringarray64.go", "\t\t// a bucket, owned or just cloned, may itself hold containers that point into a buffer (FromUnsafeBytes)\n\t\tra.containers[i].CloneCopyOnWriteContainers()\n", "", "inner detach"},
 	{"64-bit detach skips the buckets it has just cloned", "A5", "roaring64/roaringarray64.go", "\t\t\tra.needCopyOnWrite[i] = false\n\t\t}\n\t\t// a bucket, owned", "\t\t\tra.needCopyOnWrite[i] = false\n\t\t\tcontinue\n\t\t}\n\t\t// a bucket, owned", "inner detach"},
 	{"a second portable decoder adopts a run list verbatim", "L8", "roaringarray.go", "func (ra *roaringArray) hasRunCompression() bool {\n", "func readRunChunk(stream internal.ByteInput, nr int) (container, error) {\n\tbuf, err := stream.Next(nr * 4)\n\tif err != nil {\n\t\treturn nil, err\n\t}\n\treturn &runContainer16{iv: byteSliceAsInterval16Slice(buf)}, nil\n}\n\nfunc (ra *roaringArray) hasRunCompression() bool {\n", "roaring.readRunChunk"},
